@@ -275,6 +275,159 @@ func Sequential(t *tr.W, r *rand.Rand, n int) {
 	}
 }
 
+// hugeCaps: capacities in the upper half of the uint64 range, where a sum of two
+// in-range quantities (resident total + size of the entry being stored) no longer
+// fits the machine word.  The property quantifies over arbitrary sizes and
+// capacities; sizes are user-defined units, and NewCache(math.MaxUint64) is the
+// idiom for an "unbounded" cache.
+var hugeCaps = []uint64{
+	1<<63 - 2, 1<<63 - 1, 1 << 63, 1<<63 + 1, 1<<63 + 5, 3 << 62, 1<<64 - 3, 1<<64 - 2, 1<<64 - 1,
+}
+
+// hugeSize picks an entry size for a cache of capacity cap whose resident total
+// is cur: small ones, ones around 2^62 and 2^63, ones that exactly fill, just fit
+// or just miss the free space, the capacity itself and sizes beyond it.
+func hugeSize(r *rand.Rand, cap, cur uint64) uint64 {
+	free := cap - cur
+	small := uint64(r.Intn(4))
+	switch r.Intn(16) {
+	case 0:
+		return small
+	case 1, 2:
+		return 1<<62 - 1 + small // around 2^62
+	case 3, 4:
+		return 1<<63 - 2 + small // around 2^63 (may exceed the capacity)
+	case 5:
+		return cap
+	case 6:
+		return cap - 1 - small
+	case 7:
+		if cap < 1<<64-4 {
+			return cap + 1 + small // too big
+		}
+		return 1<<64 - 1 // too big unless it is the capacity
+	case 8:
+		return free // fills the cache exactly, nothing to evict
+	case 9:
+		if free < cap {
+			return free + 1 // one more than fits: the oldest entry has to go
+		}
+		return free
+	case 10:
+		if free > small {
+			return free - small - 1
+		}
+		return small
+	case 11:
+		return cap/2 + small
+	case 12:
+		return cap/2 - small
+	case 13:
+		return 1<<64 - 1 - small // 2^64-1 ... : wraps any non-empty total
+	case 14:
+		return cap/3 + small
+	default:
+		return 1 + uint64(r.Int63())>>uint(r.Intn(3)) // anywhere in the lower half
+	}
+}
+
+// SequentialHuge: sequential cases like Sequential's, on caches whose capacity is
+// near 2^63 or 2^64 and entries whose sizes add up to more than a uint64 holds.
+// The Lean driver computes the oracle (resident total <= capacity, Size() = that
+// total, Len(), recency order, step clauses) on unbounded naturals.
+func SequentialHuge(t *tr.W, r *rand.Rand, n int) {
+	for i := 0; i < n; i++ {
+		cap := hugeCaps[r.Intn(len(hugeCaps))]
+		if r.Intn(6) == 0 {
+			cap = 1<<63 + uint64(r.Int63()) // anywhere in the upper half
+		}
+		w := newWorld(cap)
+		nkeys := 2 + r.Intn(5)
+		vid := 0
+		var live []int
+		poison := r.Intn(4) == 0
+		t.Case("seq cap %d", cap)
+		nops := 5 + r.Intn(30)
+		for j := 0; j < nops; j++ {
+			var o op
+			k := r.Intn(nkeys)
+			switch x := r.Intn(100); {
+			case x < 60:
+				vid++
+				live = append(live, vid)
+				o = op{kind: "put", k: k, vid: vid, sz: hugeSize(r, cap, w.c.Size())}
+			case x < 75:
+				o = op{kind: "get", k: k}
+			case x < 88:
+				o = op{kind: "del", k: k}
+			case x < 95 && poison && len(live) > 0:
+				o = op{kind: "poison", vid: live[r.Intn(len(live))]}
+			case poison && len(live) > 0:
+				o = op{kind: "heal", vid: live[r.Intn(len(live))]}
+			default:
+				o = op{kind: "get", k: k}
+			}
+			obs := w.execTimed(o)
+			t.Op(o.String(), obs)
+			t.Hit("huge." + o.kind + "." + strings.Fields(obs)[0])
+			if o.kind == "put" && o.sz >= 1<<62 {
+				t.Hit("huge.put.size>=2^62")
+			}
+			if obs == "HANG" {
+				break
+			}
+			d := w.dump()
+			t.Op("dump", d)
+			if d == "HANG" {
+				break
+			}
+		}
+	}
+}
+
+// ConcHuge: a few randomly scheduled cases on huge capacities (the arithmetic of
+// Put/evict/LoadAndDelete inside the critical section, with other callers parked
+// at the yield points).
+func ConcHuge(t *tr.W, r *rand.Rand, n int) {
+	lru.VerifYield = hook
+	for i := 0; i < n; i++ {
+		cap := hugeCaps[r.Intn(len(hugeCaps))]
+		vid := 0
+		cur := uint64(0)
+		mk := func() op {
+			k := r.Intn(3)
+			switch x := r.Intn(10); {
+			case x < 6:
+				vid++
+				sz := hugeSize(r, cap, cur%cap)
+				cur += sz / 2 // only steers the choice of the next boundary size
+				return op{kind: "put", k: k, vid: vid, sz: sz}
+			case x < 8:
+				return op{kind: "get", k: k}
+			default:
+				return op{kind: "del", k: k}
+			}
+		}
+		var prefix []op
+		for j := r.Intn(5); j > 0; j-- {
+			prefix = append(prefix, mk())
+		}
+		nth := 2 + r.Intn(2)
+		progs := make([][]op, nth)
+		for k := range progs {
+			for j := 1 + r.Intn(3); j > 0; j-- {
+				progs[k] = append(progs[k], mk())
+			}
+		}
+		choices := make([]int, 200)
+		for k := range choices {
+			choices[k] = r.Intn(nth)
+		}
+		emitConc(t, cap, prefix, progs, choices)
+		t.Hit("huge.conc")
+	}
+}
+
 // ---------------------------------------------------------------------------
 // Controlled scheduler over the yield hooks.
 
@@ -769,6 +922,9 @@ func init() {
 	tr.Register("lru", func(t *tr.W, thorough bool) {
 		tr.MaxHangs = 6
 		r := tr.Rng(16)
+		// the huge-capacity cases draw from their own stream: the cases the other
+		// generators produce for a seed stay what they were
+		rh := tr.Rng(1664)
 		b := tr.EnvInt("VERIF_BUDGET", 1)
 		if os.Getenv("VERIF_SEARCH") != "" {
 			// the search pass after a broken tie: three times the quick budget
@@ -776,13 +932,17 @@ func init() {
 		}
 		if thorough {
 			Sequential(t, r, b*tr.EnvInt("LRU_SEQ", 20000))
+			SequentialHuge(t, rh, b*tr.EnvInt("LRU_HUGE", 4000))
 			ConcExhaustive(t, r, b*tr.EnvInt("LRU_PROGS", 150), 4000)
 			ConcRandom(t, r, b*tr.EnvInt("LRU_RAND", 3000))
+			ConcHuge(t, rh, b*tr.EnvInt("LRU_HUGE_CONC", 300))
 			Unscheduled(t, r, tr.EnvInt("LRU_FREE", 300))
 		} else {
 			Sequential(t, r, b*tr.EnvInt("LRU_SEQ", 1500))
+			SequentialHuge(t, rh, b*tr.EnvInt("LRU_HUGE", 300))
 			ConcExhaustive(t, r, b*tr.EnvInt("LRU_PROGS", 12), 1500)
 			ConcRandom(t, r, b*tr.EnvInt("LRU_RAND", 300))
+			ConcHuge(t, rh, b*tr.EnvInt("LRU_HUGE_CONC", 30))
 			Unscheduled(t, r, tr.EnvInt("LRU_FREE", 40))
 		}
 	})
